@@ -5,6 +5,7 @@
 From Coq Require Import List NArith Bool.
 From V Require Proofs.ExprsTie3.  (* whole-word regimes, fill_symmetric, text widths: regenerated from the Rust source, equal the model's *)
 From V Require Proofs.ExprsTie.   (* the kernels' word-level expressions, regenerated from the Rust source, equal the model's *)
+From V Require Import Checkers.Check Proofs.CheckSound.   (* the extracted checkers and their soundness proofs, pinned at the end of this file *)
 From V Require Import Base.Res Model.Kernels Model.Api Spec.Bfun Proofs.Order.
 From V Require Import Proofs.ApiTransforms Proofs.HexOrder.
 Import ListNotations.
@@ -176,3 +177,40 @@ Print Assumptions C08_cmp_hex_api.
 Print Assumptions C08_cmp_bin_api.
 Print Assumptions C08_to_hex_inj.
 Print Assumptions C08_to_bin_inj.
+
+
+(* ---- soundness of the extracted checkers that decide this property's statement on the implementation's results *)
+Theorem C08_checker_bigN_big : forall t,
+  bigN t = big t.
+Proof. exact CheckSound.bigN_big. Qed.
+
+Theorem C08_checker_cmp_sound : forall na a nb b c,
+  wf na a -> wf nb b ->
+  (chk_cmp na a nb b c = true <-> D_cmp (mkLut na a) (mkLut nb b) = Ok c).
+Proof. exact CheckSound.chk_cmp_sound. Qed.
+
+Theorem C08_checker_next_iff : forall n a a' ok,
+  chk_next n a a' ok = true <->
+  wf n a' /\ big a' = (big a + 1) mod 2 ^ (2 ^ N.of_nat n) /\ ok = negb (big a' =? 0).
+Proof. exact CheckSound.chk_next_iff. Qed.
+
+Theorem C08_checker_next_sound : forall n a a' ok,
+  wf n a ->
+  (chk_next n a a' ok = true <-> next_inplace n a = Ok (a', ok)).
+Proof. exact CheckSound.chk_next_sound. Qed.
+
+Theorem C08_checker_eq_iff : forall na a nb b r,
+  chk_eq na a nb b r = true <-> (r = true <-> na = nb /\ forall m, m < 2 ^ N.of_nat na -> val a m = val b m).
+Proof. exact CheckSound.chk_eq_iff. Qed.
+
+Theorem C08_checker_eq_sound : forall na a nb b r,
+  wf na a -> wf nb b ->
+  (chk_eq na a nb b r = true <-> D_eq (mkLut na a) (mkLut nb b) = r).
+Proof. exact CheckSound.chk_eq_sound. Qed.
+
+Print Assumptions C08_checker_bigN_big.
+Print Assumptions C08_checker_cmp_sound.
+Print Assumptions C08_checker_next_iff.
+Print Assumptions C08_checker_next_sound.
+Print Assumptions C08_checker_eq_iff.
+Print Assumptions C08_checker_eq_sound.
